@@ -58,6 +58,22 @@ func (a *allocSizes) bounded(fn *Fn, e ast.Expr, depth int) string {
 		if se, ok := ast.Unparen(x.Fun).(*ast.SelectorExpr); ok && (se.Sel.Name == "Len" || se.Sel.Name == "Size") && len(x.Args) == 0 {
 			return ""
 		}
+		// a first-party helper that returns the smaller (larger) of its two arguments is a min (max)
+		if cf := p.Callee(fn, x); cf != nil && p.firstParty(cf.Pkg()) && len(x.Args) == 2 {
+			switch minMaxHelper(p, p.ByObj[cf]) {
+			case "min":
+				w1 := a.bounded(fn, x.Args[0], depth)
+				if w1 == "" {
+					return ""
+				}
+				return a.bounded(fn, x.Args[1], depth)
+			case "max":
+				if w := a.bounded(fn, x.Args[0], depth); w != "" {
+					return w
+				}
+				return a.bounded(fn, x.Args[1], depth)
+			}
+		}
 		// a function of bounded arguments (hex.EncodedLen(len(b)), a maximum of two lengths, …) is bounded
 		if _, isMethod := ast.Unparen(x.Fun).(*ast.SelectorExpr); len(x.Args) > 0 || !isMethod || p.Callee(fn, x) == nil || p.Callee(fn, x).Type().(*types.Signature).Recv() == nil {
 			for _, arg := range x.Args {
@@ -171,4 +187,108 @@ func allocationsBoundedByWhatExists(c *Ctx, r *Report, rule string) {
 		})
 	}
 	r.Floor(rule, "sized allocations of slices and maps", n, 6)
+}
+
+// minMaxHelper: "min" / "max" when the function takes two integers and returns the smaller / larger one for
+// every ordering of them (its body — ifs comparing the two parameters, each returning one of them, and a final
+// return — is evaluated on the three orderings); "" otherwise.
+func minMaxHelper(p *Prog, fn *Fn) string {
+	if fn == nil || fn.Body == nil || fn.Obj == nil {
+		return ""
+	}
+	sig := fn.Obj.Type().(*types.Signature)
+	if sig.Params().Len() != 2 || sig.Results().Len() != 1 {
+		return ""
+	}
+	pa, pb := paramObjAny(fn, 0), paramObjAny(fn, 1)
+	if pa == nil || pb == nil {
+		return ""
+	}
+	val := func(e ast.Expr, a, b int) (int, bool) {
+		id, ok := ast.Unparen(e).(*ast.Ident)
+		if !ok {
+			return 0, false
+		}
+		switch p.ObjOf(fn, id) {
+		case pa:
+			return a, true
+		case pb:
+			return b, true
+		}
+		return 0, false
+	}
+	cond := func(e ast.Expr, a, b int) (bool, bool) {
+		be, ok := ast.Unparen(e).(*ast.BinaryExpr)
+		if !ok {
+			return false, false
+		}
+		x, ok1 := val(be.X, a, b)
+		y, ok2 := val(be.Y, a, b)
+		if !ok1 || !ok2 {
+			return false, false
+		}
+		switch be.Op {
+		case token.LSS:
+			return x < y, true
+		case token.LEQ:
+			return x <= y, true
+		case token.GTR:
+			return x > y, true
+		case token.GEQ:
+			return x >= y, true
+		}
+		return false, false
+	}
+	var run func(stmts []ast.Stmt, a, b int) (int, bool)
+	run = func(stmts []ast.Stmt, a, b int) (int, bool) {
+		for _, st := range stmts {
+			switch x := st.(type) {
+			case *ast.ReturnStmt:
+				if len(x.Results) != 1 {
+					return 0, false
+				}
+				return val(x.Results[0], a, b)
+			case *ast.IfStmt:
+				if x.Init != nil {
+					return 0, false
+				}
+				c, ok := cond(x.Cond, a, b)
+				if !ok {
+					return 0, false
+				}
+				if c {
+					return run(x.Body.List, a, b)
+				}
+				if x.Else != nil {
+					if blk, ok := x.Else.(*ast.BlockStmt); ok {
+						return run(blk.List, a, b)
+					}
+					return 0, false
+				}
+			default:
+				return 0, false
+			}
+		}
+		return 0, false
+	}
+	isMin, isMax := true, true
+	for _, pr := range [][2]int{{1, 2}, {2, 1}, {1, 1}} {
+		v, ok := run(fn.Body.List, pr[0], pr[1])
+		if !ok {
+			return ""
+		}
+		lo, hi := pr[0], pr[1]
+		if lo > hi {
+			lo, hi = hi, lo
+		}
+		isMin = isMin && v == lo
+		isMax = isMax && v == hi
+	}
+	switch {
+	case isMin && !isMax:
+		return "min"
+	case isMax && !isMin:
+		return "max"
+	}
+	return ""
 }
